@@ -111,7 +111,27 @@ func runC04h(seed uint64, n int, outDir string, replay string) {
 			var delivered []string // ids in the order the zone received them
 			nexec := 0
 			for b := 0; b < blocksPerCase; b++ {
+				// a competing block: before the users act, a second miner (another coinbase) seals the pending header
+				// on the same parent; it reaches the zone after the block the history continues with
+				var sib *types.WorkObject
+				if b == 3 || b == 27 {
+					w.zoneRun = 5 // a run of zone blocks: manifests of 3 and more entries, each block with a competitor
+				}
+				if hr.zone.tip != nil && b >= 2 {
+					hr.nextCoinbase = w.quai[0].addr
+					var serr error
+					sib, serr = hr.next(common.ZONE_CTX)
+					if serr != nil {
+						o.Count("sibling:no-pending-header")
+					}
+				}
 				st, err := w.step()
+				if err == nil && sib != nil {
+					err = c04hSibling(o, hr, st, sib)
+				}
+				if st != nil && st.blk != nil {
+					c04hManifestOracle(o, hr, st.blk)
+				}
 				if errors.Is(err, errHierStuck) {
 					if os.Getenv("QVH_DEBUG") != "" {
 						fmt.Fprintln(os.Stderr, "STUCK:", err)
@@ -212,6 +232,74 @@ func runC04h(seed uint64, n int, outDir string, replay string) {
 		o.EndCase(fmt.Sprint(rc.U64()), true)
 	}
 	o.Close(nil)
+}
+
+// c04hSibling appends a competing zone-order block (same parent, other content) after the block the history continues
+// with: the zone keeps its head, the sibling stays a side block.  Nothing the sibling emitted may ever be delivered and
+// nothing of the accepted block may be lost - the oracles of the main loop see to that.
+func c04hSibling(o *h.Out, hr *hier, st *cwStep, sib *types.WorkObject) error {
+	z, blk := hr.zone, st.blk
+	if st.order != common.ZONE_CTX || sib.ParentHash(common.ZONE_CTX) != blk.ParentHash(common.ZONE_CTX) || sib.Hash() == blk.Hash() {
+		o.Count(fmt.Sprintf("sibling:skipped:order%d:sameparent%v:samehash%v", st.order, sib.ParentHash(common.ZONE_CTX) == blk.ParentHash(common.ZONE_CTX), sib.Hash() == blk.Hash()))
+		return nil
+	}
+	if _, order, err := z.hc.CalcOrder(sib); err != nil || order != common.ZONE_CTX {
+		return nil
+	}
+	zblk, err := z.cr.ReceiveMinedHeader(sib)
+	if err != nil {
+		o.Count("sibling:not-built")
+		return nil
+	}
+	z.sl.WriteBlock(zblk)
+	known := func() bool {
+		return z.hc.GetHeaderByHash(zblk.Hash()) != nil && z.hc.GetTerminiByHash(zblk.Hash()) != nil
+	}
+	for try := 0; try < 40 && !known(); try++ {
+		z.cr.InsertChain(types.WorkObjects{zblk})
+		if !known() {
+			time.Sleep(25 * time.Millisecond)
+		}
+	}
+	if !known() {
+		o.Count("sibling:not-appended")
+		return nil
+	}
+	o.Count("sibling:appended")
+	if len(zblk.OutboundEtxs()) > 0 {
+		o.Count("sibling:appended:emits-etxs")
+	}
+	if z.hc.CurrentHeader().Hash() != blk.Hash() {
+		o.Count("sibling:became-head")
+		return fmt.Errorf("%w: the zone moved to the competing block", errHierStuck)
+	}
+	return hr.pendingHeaders()
+}
+
+// c04hManifestOracle: the manifest the zone hands to its dominant chain for a block (Slice.GetManifest - the list of
+// zone blocks whose ETXs the next coincident block rolls up) is the block's own ancestry: it ends with the block, every
+// entry is the parent of the next one.  Asked for the block just appended and for its parent, after any competitor.
+func c04hManifestOracle(o *h.Out, hr *hier, blk *types.WorkObject) {
+	z := hr.zone
+	for _, b := range []*types.WorkObject{blk, z.hc.GetHeaderByHash(blk.ParentHash(common.ZONE_CTX))} {
+		if b == nil || z.hc.IsGenesisHash(b.Hash()) {
+			continue
+		}
+		m, err := z.sl.GetManifest(b.Hash())
+		if err != nil || len(m) == 0 {
+			continue
+		}
+		o.Count(fmt.Sprintf("manifest-len:%d", min(len(m), 8)))
+		bad := m[len(m)-1] != b.Hash()
+		for i := 0; i+1 < len(m) && !bad; i++ {
+			hd := z.hc.GetHeaderByHash(m[i+1])
+			bad = hd == nil || hd.ParentHash(common.ZONE_CTX) != m[i]
+		}
+		if bad {
+			o.Violate("c04-manifest-is-not-the-blocks-ancestry", fmt.Sprintf("block %d (%x): the manifest the zone reports for it has %d entries ending in %x and is not the chain of its ancestors: the coincident block would roll up the ETXs of another block", b.NumberU64(common.ZONE_CTX), b.Hash().Bytes()[:6], len(m), m[len(m)-1].Bytes()[:6]))
+			return
+		}
+	}
 }
 
 // checkTransit: what arrives is what was sent; conversions may be repriced by prime within the protocol's bounds
